@@ -376,6 +376,42 @@ def lit(rng):
     return str(rng.choice(LITS))
 
 
+TERMS = ["i0 * i1", "i0 + i1", "i0 - i1", "i0 * i0", "i1 * 2 + i0", "-i0 * i1"]
+# constant expressions that need more than one fixpoint pass to fold (3-term subtractions, nested arithmetic)
+KEXPRS = ["5 - 3 - 1", "(2 + 3) - 1 - 1", "1 + 2 * 3 - 5", "2 * (3 - 1) - 1", "7 - (2 + 3) - 1", "- -(3 - 1)", "8 - 2 - 2 - 2", "(5 - 3 - 1) * 2"]
+
+
+def compound_term(rng, cols):
+    t = rng.choice(TERMS)
+    if "n0" in cols["i"] and rng.random() < 0.3:
+        t = t.replace("i1", "n0")
+    return t
+
+
+def multipass_template(rng, cols):
+    """multi-pass interactions: a compound shared term, a constant side that folds late (or a comparison rebuilt by
+    simplify_not / simplify_equality), AND/OR-ed with another range comparison on the same compound term"""
+    T = compound_term(rng, cols); K, K2 = rng.choice(KEXPRS), rng.choice(KEXPRS)
+    o1, o2 = rng.choice(CMPS), rng.choice(CMPS)
+    l1, l2, l3 = lit(rng), lit(rng), str(rng.choice([5, 7, 9]))
+    conn = rng.choice(["AND", "OR"])
+    c, c2 = rng.choice(cols["i"]), rng.choice(cols["i"])
+    A = rng.choice(cols["b"])
+    t = [
+        f"{K} {o1} {T} {conn} {T} {o2} {l3}", f"{T} {o2} {l3} {conn} {K} {o1} {T}", f"{K} {o1} {T} {conn} {K2} {o2} {T}",
+        f"{T} {o1} {K} {conn} {T} {o2} {l3}", f"{K} {o1} {T} {conn} {T} {o2} {l3} {conn} {A}",
+        f"NOT ({T} + {l1} {o1} {l3}) {conn} {T} {o2} {l3}", f"NOT ({K} {o1} {T}) {conn} {T} {o2} {l3}", f"NOT ({T} + {l1} + 1 {o1} {l2}) {conn} NOT ({T} {o2} {l3})",
+        f"{l3} - ({T}) {o1} {l1} {conn} {T} {o2} {l2}", f"{T} + {K} {o1} {l3} {conn} {T} {o2} {l2}", f"{K} + ({T}) {o1} {l3} {conn} {T} {o2} {l2}",
+        f"{T} BETWEEN {K} AND {l3} {conn} {T} {o1} {l2}", f"NOT {T} BETWEEN {K} AND {l3}",
+        f"{c} = {K} AND {c} {o1} {c2} AND {c2} {o2} {l3}", f"{c} = 2 + 3 AND {c} {o1} {T} AND {T} {o2} {l3}",
+        f"({K} {o1} {T} {conn} {T} {o2} {l3}) {'OR' if conn == 'AND' else 'AND'} {A}",
+        f"CASE WHEN {K} {o1} {T} {conn} {T} {o2} {l3} THEN {A} ELSE NOT {A} END",
+        f"COALESCE({K} {o1} {T}, {A}) {conn} {T} {o2} {l3}",
+        f"{K} {o1} {c} {conn} {c} {o2} {l3}", f"{c} * {K} {o1} {l3} {conn} {c} * {K2} {o2} {l2}",
+    ]
+    return rng.choice(t)
+
+
 def atom(s):
     if s.replace("_", "").isalnum() or s.startswith("COALESCE(") or s.startswith("IF("):
         return s
@@ -413,7 +449,10 @@ def gen_int(rng, d, cols):
 def gen_cmp(rng, d, cols):
     r = rng.random()
     c = rng.choice(cols["i"]); op = rng.choice(CMPS)
-    if r < 0.55:
+    if r < 0.12:
+        T, K = compound_term(rng, cols), rng.choice(KEXPRS)
+        return f"{K} {op} {T}" if rng.random() < 0.5 else (f"{T} {op} {K}" if rng.random() < 0.5 else f"{T} {op} {lit(rng)}")
+    if r < 0.58:
         return f"{c} {op} {lit(rng)}" if rng.random() < 0.75 else f"{lit(rng)} {op} {c}"
     if r < 0.70:
         aop = rng.choice(["+", "-"])
@@ -489,9 +528,11 @@ def templates(rng, cols):
 def gen_sql(rng, nonnull=False):
     cols = {"b": BCOLS + (NB * 3 if nonnull else []), "i": ICOLS + (NI * 2 if nonnull else [])}
     r = rng.random()
-    if r < 0.40:
+    if r < 0.22:
+        return multipass_template(rng, cols)
+    if r < 0.50:
         return templates(rng, cols)
-    if r < 0.48:
+    if r < 0.56:
         return gen_int(rng, 3, cols)
     return gen_bool(rng, rng.choice([2, 3, 3, 4]), cols)
 
@@ -1120,6 +1161,8 @@ CORPUS = [
     ("(c0 AND b0) OR (NOT c0 AND b0)", "nonnull", "simplify"), ("(b0 AND b1) OR (NOT b0 AND b1)", "typed", "simplify"),
     ("NOT NOT b0", "typed", "simplify"), ("NOT NOT i0", "typed", "simplify"), ("3 < i0 AND i0 < 5", "untyped", "simplify"),
     ("(b0 AND b1) OR (b2 AND i0 > 1)", "untyped", "cnf"), ("(b0 OR b1) AND (b2 OR i0 BETWEEN 1 AND 3)", "untyped", "dnf"),
+    ("5 - 3 - 1 < i0 * i1 AND i0 * i1 < 7", "untyped", "simplify"), ("NOT (i0 + i1 + 1 <= 3) AND i0 + i1 < 9", "untyped", "simplify"),
+    ("i0 = 2 + 3 AND i0 < i1 AND i1 < 7", "untyped", "simplify_cp"),
     ("i0 - 5 - 3 > 1", "untyped", "simplify"), ("5 - i0 < 2", "untyped", "simplify"), ("b0 AND TRUE", "untyped", "simplify"),
 ]
 
@@ -1160,7 +1203,7 @@ def run(chk: Check) -> None:
     dlist = list(dialects.values())
     rng = chk.rng
     t0 = time.time()
-    budget = chk.pick(34, 420)
+    budget = chk.pick(50, 480)
     if chk.broken:
         budget *= 2
     all_logs, e2e_norm, sqls = [], [], []
@@ -1172,7 +1215,7 @@ def run(chk: Check) -> None:
         log, viols = check_input(chk, sql, variant, api, dialect)
         chk.case((sql, variant, api, dialect), nontrivial=any(True for _ in step_pairs(log)),
                  sample={"sql": sql, "variant": variant, "api": api, "dialect": dialect} if n_inputs % 400 == 1 else None)
-        if len(all_logs) < chk.pick(60000, 400000):
+        if len(all_logs) < chk.pick(200000, 800000):
             all_logs.extend(log)
         return log
 
@@ -1190,6 +1233,19 @@ def run(chk: Check) -> None:
                     # ... and through the pipeline, where a NOT-complement is rewritten in the same pass and not re-sorted
                     one(f"NOT i0 {COMPL[o1]} {l1} {conn} i0 {o2} {l2}", "untyped", "simplify", dlist[0])
                     one(f"i0 {o1} {l1} {conn} NOT i0 {COMPL[o2]} {l2}", "untyped", "simplify", dlist[0])
+    # multi-pass sweep: compound shared term x late-folding constant on either side x range operators x AND/OR
+    RANGE = ["<", "<=", ">", ">="]
+    for T, K in (("i0 * i1", "5 - 3 - 1"), ("i0 + i1", "2 * (3 - 1) - 1")):
+        if True:
+            for o1 in RANGE:
+                for o2 in RANGE:
+                    for conn in ("AND", "OR"):
+                        one(f"{K} {o1} {T} {conn} {T} {o2} 7", "untyped", "simplify", dlist[0])
+                        one(f"{T} {o2} 7 {conn} NOT ({T} + 1 {o1} 3)", "untyped", "simplify", dlist[0])
+    for o1 in RANGE:
+        for o2 in RANGE:
+            one(f"i0 = 2 + 3 AND i0 {o1} i1 AND i1 {o2} 7", "untyped", "simplify_cp", dlist[0])
+            one(f"i0 = 5 - 3 - 1 AND i0 {o1} i0 * i1 AND i0 * i1 {o2} 7", "untyped", "simplify_cp", dlist[0])
     chk.cov["sweep_s"] = round(time.time() - t0, 1)
     t_rand = time.time()
     while time.time() - t_rand < budget * 0.45 and len(chk.violations) < 6:
